@@ -196,6 +196,8 @@ def from_dimacs_file(cnfclass, fileorname=None):
     if fileorname is None:
         inputfile = sys.stdin
         name = '<stdin>'
+        if inputfile is None:
+            raise ValueError("the standard input is closed")
     elif isinstance(fileorname, str):
         with open(fileorname, 'r', encoding='utf-8') as filehandle:
             return from_dimacs_file(cnfclass, filehandle)
